@@ -9,14 +9,17 @@ def run(chk, replay=None):
     if replay is not None and replay.get('m') == 'trace':
         return file_common.run_traces(chk, lambda e: e['a'] in ('Create', 'Delete', 'AddLink', 'RemoveLink', 'Open'), 1, 0, replay=replay)
     t = 't' if chk.thorough else 'q'
-    cfgs = ['c03%s_%s' % (x, t) for x in 'abcde']
+    cfgs = ['c03%s_%s' % (x, t) for x in 'abcdef']
     sims = [('all', 2000 if chk.thorough else 100, 30)]
-    J = ('Create', 'Delete', 'Open', 'AddLink', 'RemoveLink')
+    J = ('Create', 'Delete', 'Open', 'AddLink', 'RemoveLink', 'SetLinks')
     judge = lambda r: r['step']['a'] in J
     chk.rule = ('one case per Create/Delete/AddLink/RemoveLink/Open transition of all create/delete/re-create/reopen interleavings over '
                 '2-3 names in 5 container groups (BFS exhaustive within the creation bound), plus such steps of random behaviours over the '
                 'whole vocabulary; each case = full observation incl. self-agreement of all look-up paths; names concretised by dictionary %d') % (chk.seed % 6)
     file_common.run_file_check(chk, cfgs, sims, judge=judge, replay=replay, opts={'ignore_handles': True},  coverage=['Create:reject', 'Delete', 'Open', 'AddLink'])
+    # names that look like UUIDs are always exercised (look-up by name must not be confused with look-up by id)
+    if chk.seed % 6 != 2:
+        file_common.run_file_check(chk, ['c03a_' + t, 'c03c_' + t], [], judge=judge, opts={'names': 2, 'ignore_handles': True})
     # direction B: random API programs recorded from the real library, validated against NixFileTrace.tla
     file_common.run_traces(chk, lambda e: e['a'] in ('Create', 'Delete', 'AddLink', 'RemoveLink', 'Open'), 24 if chk.thorough else 6, 1500 if chk.thorough else 400)
     chk.exhaustive = False
